@@ -60,7 +60,7 @@ CLAIMED = {
     "C10": dict(
         text="Progress.tla models the worker/reporter protocol (one channel per chain, polling reporter, at most MaxBars bars recycled left to right, exit when all final statistics were seen, receiver crash at any point); TLC proves Termination under weak fairness and DrawsExact / ExitOnlyWhenAllFinal / CountOnce over all interleavings with more chains than bars, and refutes a non-recycling reporter; TLC-enumerated completion schedules (7 chains, 5 bars) are realised deterministically through the reporter_iter hook, sampler x element type x backend x chain-count configurations (up to 48 chains) and receiver drops at every point are executed under a watchdog, and the reporter's logged bookkeeping is trace-validated against the specification with TLC inferring the unobservable drains.",
         note="Trusted: TLC; watchdog timeouts (30-120 s against a 250 ms polling period); draws compared bit for bit with run() on a clone (NUTS: shifted by one draw); diagnostics compared with RunStats::from(draws).",
-        ref="DESIGN.md 4.3, 5/C10", technique="TLC model check incl. liveness of Progress.tla + replay of TLC-generated schedules/configurations/faults + trace validation (Trace_Progress)"),
+        ref="DESIGN.md 4.3, 5/C10", technique="TLC model check incl. liveness of Progress.tla + Apalache inductive invariant of the reporter bookkeeping (ProgressInd.tla) + replay of TLC-generated schedules/configurations/faults + trace validation (Trace_Progress)"),
     "C02": dict(
         text="HMC.tla models one row of the batched step action by action (momentum, gradient term at the current position, energy, L x half-kick/drift/gradient/half-kick, energy, Metropolis test ln u <= H - H', select) on a dyadic lattice where every quantity is an exact integer; TLC proves exactness of the lattice, that the code-shaped integrator (carried gradient term) is velocity Verlet, exact time reversibility and 'old row or proposal' for every configuration in the bounds incl. two consecutive steps; every behaviour is replayed through the real HMC::step with injected momenta/uniforms and must match BIT FOR BIT on the f64 backend (positions, momenta, both energies, mask), in batches, reversed batches and alone; verif_leapfrog from (x',-p') must return exactly to (x,-p); runs on Gaussian, Rosenbrock, Student-t and half-line targets (1..32 chains, dim 2..16, L 0..64, stable to overflowing step sizes) are trace-validated sub-step by sub-step against the harness's own gradients.",
         note="Trusted: TLC; hook events and overrides (feature verif-hooks); the harness's closed-form gradients for trace mode; tolerances 1e-7 (f64) / 2e-4..5e-4 (f32-level) with a 10-unit budget; exact finite ties are never generated.",
